@@ -134,10 +134,54 @@ def run(ctx):
             if got[:ncomplete] != base[:ncomplete]:
                 ctx.violation('truncation', case, 'complete constructs %d: expected %r got %r' % (
                     ncomplete, base[:ncomplete], got[:ncomplete]), KNOWN_PRED)
+        # ---- truncation inside nested blocks: every declaration closed by ';' and every rule closed by '}' before
+        # the cut is present, under the same enclosing rules (cut points: after every ';', '}' and random ones)
+        if i % 4 == 1:
+            nested_truncation(ctx, rng, sp)
         if i == 2:
             ctx.sample(case)
     agree = slicing.correspondence(ctx, texts[:200 if quick else 4000])
     ctx.extra['correspondence'] = {'slicing_checks_agree_total': agree}
+
+
+def nested_truncation(ctx, rng, sp):
+    from harness import sem_dom as S
+    prefix = rng.choice(['', '@media print{', '@media print{', '@media tv, print {\n'])
+    rules = [('style', [G.gen_selector(rng)], [G.gen_decl(rng) for _ in range(rng.randrange(1, 4))]) for _ in range(rng.randrange(1, 4))]
+    text = prefix
+    marks = []          # (offset after which the thing is complete, rule index, number of declarations complete, rule complete)
+    for j, r in enumerate(rules):
+        text += G.r_selector(sp, r[1][0]) + '{'
+        for n, d in enumerate(r[2]):
+            text += G.r_decl(sp, d) + ';'
+            marks.append((len(text), j, n + 1, False))
+        text += '}'
+        marks.append((len(text), j, len(r[2]), True))
+        text += rng.choice(['', ' ', '\n'])
+    sem_rules = G.sem_sheet(rules)
+    cuts = sorted({m[0] for m in marks} | {rng.randrange(len(prefix), len(text) + 1) for _ in range(3)})
+    for cut in cuts:
+        done = [m for m in marks if m[0] <= cut]
+        if not done:
+            continue
+        _, j, ndecl, closed = done[-1]
+        trunc = text[:cut]
+        case = {'text': trunc, 'level': 'nested-truncation', 'rule': j, 'declarations_complete': ndecl, 'rule_closed': closed}
+        ctx.case(('ntrunc', trunc))
+        try:
+            got = S.sem_sheet(parse(trunc))
+        except Exception as e:
+            ctx.violation('raises', case, '%s: %s' % (type(e).__name__, e), KNOWN_PRED)
+            continue
+        if prefix:
+            inner = got[0][2] if got and got[0][0] == 'media' else None
+        else:
+            inner = got
+        ok = inner is not None and tuple(inner[:j]) == tuple(sem_rules[:j]) and len(inner) > j and inner[j][0] == 'style' \
+            and inner[j][1] == sem_rules[j][1] and tuple(inner[j][2][:ndecl]) == tuple(sem_rules[j][2][:ndecl])
+        if not ok:
+            ctx.violation('truncation', case, 'complete before the cut: rules %r and %d declaration(s) of rule %d %r\ngot %r' % (
+                sem_rules[:j], ndecl, j, sem_rules[j][2][:ndecl], got), KNOWN_PRED)
 
 
 def replay(path):
